@@ -151,6 +151,52 @@ VARIANTS = [
      "old": "        compressed_buff = bytearray()\n        zero_count = 0\n",
      "new": "        cut = data.find(b\"\\x00\")\n        if cut < 0:\n            return bytearray(data)\n"
             "        compressed_buff = bytearray(data[:cut])\n        data = data[cut:]\n        zero_count = 0\n"},
+    # ------------------------------------------------------------------ declarative forms (tables, defaults, generators)
+    {"name": "R1 run tails from a table that has no row for 0xFF", "expect": "C03.R1", "edits": [
+        {"file": DES, "old": "class UDPMessageDeserializer:\n",
+         "new": "_TAILS = [b\"\\x00\" * max(n - 1, 0) for n in range(255)]\n\n\nclass UDPMessageDeserializer:\n"},
+        {"file": DES, "old": "                    zero_count = c - 1\n                    decode_buf.extend(b\"\\x00\" * zero_count)\n",
+         "new": "                    decode_buf.extend(_TAILS[c])\n"}]},
+    {"name": "P R1 run tails from a complete table", "expect": "silent", "edits": [
+        {"file": DES, "old": "class UDPMessageDeserializer:\n",
+         "new": "_TAILS = [b\"\\x00\" * max(n - 1, 0) for n in range(256)]\n\n\nclass UDPMessageDeserializer:\n"},
+        {"file": DES, "old": "                    zero_count = c - 1\n                    decode_buf.extend(b\"\\x00\" * zero_count)\n",
+         "new": "                    decode_buf.extend(_TAILS[c])\n"}]},
+    {"name": "R1 cap is an optional parameter that defaults to no cap", "expect": "C03.R1", "edits": [
+        {"file": DES, "old": "    def zero_code_expand(msg_buf: bytes):\n", "new": "    def zero_code_expand(msg_buf: bytes, limit=None):\n"},
+        {"file": DES, "old": "if len(decode_buf) > 0x3000:", "new": "if limit is not None and len(decode_buf) > limit:"}]},
+    {"name": "P R1 cap is an optional parameter with the cap as default", "expect": "silent", "edits": [
+        {"file": DES, "old": "    def zero_code_expand(msg_buf: bytes):\n", "new": "    def zero_code_expand(msg_buf: bytes, limit: int = 0x3000):\n"},
+        {"file": DES, "old": "if len(decode_buf) > 0x3000:", "new": "if len(decode_buf) > limit:"}]},
+    {"name": "P R1 cap checked by a generator that feeds the loop", "expect": "silent", "edits": [
+        {"file": DES, "old": "        for c in msg_buf:\n            # Well beyond what the viewer allows zerocoding to expand to\n" + _CAP,
+         "new": "        def _guarded():\n            for b in msg_buf:\n                if len(decode_buf) > 0x3000:\n"
+                "                    raise ValueError(\"Unreasonably large zerocoded message\")\n                yield b\n\n"
+                "        for c in _guarded():\n"}]},
+    {"name": "R1 generator feeding the loop checks nothing", "expect": "C03.R1", "edits": [
+        {"file": DES, "old": "        for c in msg_buf:\n            # Well beyond what the viewer allows zerocoding to expand to\n" + _CAP,
+         "new": "        def _guarded():\n            for b in msg_buf:\n                yield b\n\n        for c in _guarded():\n"}]},
+    {"name": "P R2 encoder over itertools.groupby runs with a divmod split", "expect": "silent", "edits": [
+        {"file": SER, "old": "import copy\n", "new": "import copy\nimport itertools\n"},
+        {"file": SER, "old": "        zero_count = 0\n\n        def _terminate_zeros():\n            nonlocal zero_count\n" + _TERMINATE +
+                             "\n        for char in data:\n            if char == 0x00:\n" + _LOOP_ZERO_BRANCH +
+                             "            else:\n                _terminate_zeros()\n                compressed_buff.append(char)\n\n        _terminate_zeros()\n",
+         "new": "        for zeros, grp in itertools.groupby(data, lambda b: b == 0):\n            if not zeros:\n"
+                "                compressed_buff.extend(grp)\n                continue\n"
+                "            full, rest = divmod(len(list(grp)), 255)\n            compressed_buff.extend(b\"\\x00\\xff\" * full)\n"
+                "            if rest:\n                compressed_buff.extend((0, rest))\n"}]},
+    {"name": "R2 groupby encoder writes a zero remainder", "expect": "C03.R2", "edits": [
+        {"file": SER, "old": "import copy\n", "new": "import copy\nimport itertools\n"},
+        {"file": SER, "old": "        zero_count = 0\n\n        def _terminate_zeros():\n            nonlocal zero_count\n" + _TERMINATE +
+                             "\n        for char in data:\n            if char == 0x00:\n" + _LOOP_ZERO_BRANCH +
+                             "            else:\n                _terminate_zeros()\n                compressed_buff.append(char)\n\n        _terminate_zeros()\n",
+         "new": "        for zeros, grp in itertools.groupby(data, lambda b: b == 0):\n            if not zeros:\n"
+                "                compressed_buff.extend(grp)\n                continue\n"
+                "            full, rest = divmod(len(list(grp)), 255)\n            compressed_buff.extend(b\"\\x00\\xff\" * full)\n"
+                "            compressed_buff.extend((0, rest))\n"}]},
+    {"name": "P R4 compressed body selected by a conditional expression at the write", "file": SER, "expect": "silent",
+     "old": "            if msg.zerocoded:\n                msg_body = self.zero_code_compress(msg_body)\n            writer.write_bytes(msg_body)\n",
+     "new": "            writer.write_bytes(self.zero_code_compress(msg_body) if msg.zerocoded else msg_body)\n"},
     # ------------------------------------------------------------------ documented limits
     {"name": "X decoder run arithmetic off by one (value-level)", "file": DES, "expect": "miss",
      "old": "zero_count = c - 1", "new": "zero_count = c"},
